@@ -108,6 +108,10 @@ pub fn next_solution_bip<'a>(sn: Rc<RefCell<SolutionNode<'a>>>,
     if !sn_ref.more_solutions { return None; };
     sn_ref.more_solutions = false;
 
+    #[cfg(suiron_verif)]
+    crate::verif_hooks::emit(format!("{{\"e\":\"bip\",\"f\":\"{}\"}}",
+                                     crate::verif_hooks::esc(&bip.functor)));
+
     match bip.functor.as_str() {
         "print" => {
             next_solution_print(bip, &sn_ref.ss);
